@@ -45,7 +45,7 @@ Section StepsB1.
     - intros t' r. cbn. unfold fn. destruct (Nat.eqb_spec t' t) as [->|]; auto.
   Qed.
   (** a change of one view (and of the list of published records) that keeps the pointer part *)
-  Lemma JW_view g a a' ds rt t :
+  Lemma JW_view g a a' ds rt tr t :
     (forall t', t' <> t -> bvs a' t' = bvs a t') ->
     (forall p, wh a' p = wh a p) -> (forall r, rch a' r = rch a r) -> (forall r, rw a' r = rw a r) -> (forall r, moved a' r = moved a r) ->
     incl (tl a) (tl a') ->
@@ -54,9 +54,12 @@ Section StepsB1.
     (forall r nx, vb_new (bvs a' t) = Some (r, nx) -> exists nx', vb_new (bvs a t) = Some (r, nx')) ->
     (forall r nx, vb_new (bvs a t) = Some (r, nx) -> (exists nx', vb_new (bvs a' t) = Some (r, nx')) \/ In r (tl a')) ->
     (vb_own (bvs a t) <> [] -> vb_own (bvs a' t) <> [] \/ (vb_pend (bvs a t) = None /\ vb_freed (bvs a t) = [])) ->
-    JW g a ds rt -> JW g a' ds rt.
+    (forall r, vb_arr (bvs a' t) = Some r -> vb_arr (bvs a t) = Some r /\ (In r (vb_own (bvs a t)) -> In r (vb_own (bvs a' t)))) ->
+    (vb_mine (bvs a' t) = vb_mine (bvs a t) /\ vb_s0 (bvs a' t) = vb_s0 (bvs a t) /\
+     (forall r, vb_mine (bvs a t) = Some r -> In r (vb_own (bvs a t)) -> In r (vb_own (bvs a' t)))) ->
+    JW g a ds rt tr -> JW g a' ds rt tr.
   Proof.
-    intros Fo Ew Ech Erw Emv Etl E1 E2 E3 E4 Hn1 Hn2 Ho [J1 J2 J3 J4 J5 J6 J7].
+    intros Fo Ew Ech Erw Emv Etl E1 E2 E3 E4 Hn1 Hn2 Ho Ha HVt [J1 J2 J3 J4 J5 J6 J7 J8 J9].
     assert (Eec : forall r, ec g a' r = ec g a r) by (intros r; unfold ec; now rewrite Ech, Erw, Emv).
     constructor.
     - intros r Hr. rewrite Eec. split; [apply J1; auto|]. intros p. rewrite Ew. now apply J1.
@@ -65,7 +68,7 @@ Section StepsB1.
     - split; [apply J4|]. intros p. rewrite Ew. apply J4.
     - intros p. rewrite Ew. apply J5.
     - intros t' r. rewrite Emv, Erw. destruct (Nat.eq_dec t' t) as [->|N]; [rewrite E3, E4|rewrite (Fo t' N)]; apply J6.
-    - intros Hoob. destruct (J7 Hoob) as [C1 C2 C3 C4 C5 C6]. constructor.
+    - intros Hoob. destruct (J7 Hoob) as [C1 C2 C3 C4 C5 C6 C7]. constructor.
       + intros p Hp. rewrite Ew. now apply C1.
       + intros p r. rewrite Ew, Eec. apply C2.
       + intros p t'. rewrite Ew. intros H. destruct (C3 p t' H) as (X1 & X2).
@@ -77,35 +80,47 @@ Section StepsB1.
         destruct (Hn2 r nx X) as [(nx' & Y)|Y]; [right; exists t, nx'; exact Y|now left].
       + intros t' r nx. rewrite Ech. destruct (Nat.eq_dec t' t) as [->|N]; [|rewrite (Fo t' N); apply C6].
         intros H. destruct (Hn1 r nx H) as (nx' & Y). eapply C6; eauto.
+      + intros t' r. rewrite Ech. destruct (Nat.eq_dec t' t) as [->|N]; [|rewrite (Fo t' N); apply C7].
+        intros H. destruct (Ha r H) as (Y1 & Y2). destruct (C7 t r Y1) as (Z1 & Z2). auto.
+    - exact J8.
+    - destruct J9 as [H1 H2 H3]. constructor.
+      + intros t' r. destruct (Nat.eq_dec t' t) as [->|N].
+        * destruct HVt as (-> & _ & V3). intros E. destruct (H1 t r E) as (X1 & X2 & X3). split; [auto|]. split; auto. intros p. rewrite Ew. apply X3.
+        * rewrite (Fo t' N). intros E. destruct (H1 t' r E) as (X1 & X2 & X3). split; auto. split; auto. intros p. rewrite Ew. apply X3.
+      + intros t' r E. destruct (Nat.eq_dec t' t) as [->|N]; [destruct HVt as (_ & -> & _)|rewrite (Fo t' N)]; apply H2; exact E.
+      + intros t' r. destruct (Nat.eq_dec t' t) as [->|N]; [destruct HVt as (-> & -> & _); rewrite E1, E2|rewrite (Fo t' N)]; apply H3.
   Qed.
 
-  Lemma JW_setv_gen g a ds rt t v :
+  Lemma JW_setv_gen g a ds rt tr t v :
     vb_pend v = vb_pend (bvs a t) -> vb_freed v = vb_freed (bvs a t) -> vb_move v = vb_move (bvs a t) -> vb_cur v = vb_cur (bvs a t) ->
     vb_new v = vb_new (bvs a t) ->
     (vb_own (bvs a t) <> [] -> vb_own v <> [] \/ (vb_pend (bvs a t) = None /\ vb_freed (bvs a t) = [])) ->
-    JW g a ds rt -> JW g (setv a t v) ds rt.
+    (forall r, vb_arr v = Some r -> vb_arr (bvs a t) = Some r /\ (In r (vb_own (bvs a t)) -> In r (vb_own v))) ->
+    (vb_mine v = vb_mine (bvs a t) /\ vb_s0 v = vb_s0 (bvs a t) /\ (forall r, vb_mine (bvs a t) = Some r -> In r (vb_own (bvs a t)) -> In r (vb_own v))) ->
+    JW g a ds rt tr -> JW g (setv a t v) ds rt tr.
   Proof.
-    intros E1 E2 E3 E4 E5 Ho. apply JW_view with (t := t); cbn [setv bvs wh rch rw moved tl]; auto.
+    intros E1 E2 E3 E4 E5 Ho Ha HVt. apply JW_view with (t := t); cbn [setv bvs wh rch rw moved tl]; auto.
     all: try rewrite !fn_same; auto.
     - intros t' N. now rewrite fn_other.
     - intros r nx. rewrite E5. eauto.
     - intros r nx H. left. rewrite E5. eauto.
   Qed.
 
-  Lemma JW_bvs g a a' ds rt t v :
+  Lemma JW_bvs g a a' ds rt tr t v :
     bvs a' = fn (bvs a) t v -> wh a' = wh a -> rch a' = rch a -> rw a' = rw a -> moved a' = moved a -> tl a' = tl a ->
-    Vsame (bvs a t) v -> JW g a ds rt -> JW g a' ds rt.
+    Vsame (bvs a t) v -> JW g a ds rt tr -> JW g a' ds rt tr.
   Proof.
-    intros Eb Ew Ech Erw Emv Etl (V1 & V2 & V3 & V4 & V5 & V6).
+    intros Eb Ew Ech Erw Emv Etl (V1 & V2 & (V3 & V7 & V8 & V9 & V10 & V11) & V4 & V5 & V6).
     apply JW_view with (t := t); try rewrite Eb; try rewrite Ew; try rewrite Ech; try rewrite Erw; try rewrite Emv; try rewrite Etl; auto.
     all: try rewrite !fn_same; auto.
     - intros t' N. now rewrite fn_other.
     - intros r nx. rewrite V6. eauto.
     - intros r nx H. left. rewrite V6. eauto.
+    - rewrite V7. intros r H. split; auto.
   Qed.
 
-  Lemma JW_setv g a ds rt t v : Vsame (bvs a t) v -> JW g a ds rt -> JW g (setv a t v) ds rt.
-  Proof. intros (V1 & V2 & V3 & V4 & V5 & V6). apply JW_setv_gen; auto. Qed.
+  Lemma JW_setv g a ds rt tr t v : Vsame (bvs a t) v -> JW g a ds rt tr -> JW g (setv a t v) ds rt tr.
+  Proof. intros (V1 & V2 & (V3 & V7 & V8 & V9 & V10 & V11) & V4 & V5 & V6). apply JW_setv_gen; auto. rewrite V7. intros r H. split; auto. Qed.
 
   (** visiting a node of thread_list_ *)
   Lemma S_node g a tr t x : (forall h, x = Some h -> In h (tl a)) -> JB c g a tr -> JB c g (setv a t (set_node (bvs a t) x)) tr.
@@ -164,11 +179,11 @@ Section StepsB1.
   (** thread_id_.store( null ) by the owner *)
   Lemma S_sttid0 g a tr t r :
     In r (vb_own (bvs a t)) -> vb_full (bvs a t) <> Some r -> (forall ob, vb_move (bvs a t) <> Some (r, ob)) -> vb_dead (bvs a t) <> Some r ->
-    vb_pend (bvs a t) = None -> vb_freed (bvs a t) = [] ->
+    vb_pend (bvs a t) = None -> vb_freed (bvs a t) = [] -> vb_arr (bvs a t) <> Some r -> vb_mine (bvs a t) <> Some r ->
     JB c g a tr ->
     JB c (upd_rec g r (rs_tid 0)) (setv a t (set_own (bvs a t) (remove Nat.eq_dec r (vb_own (bvs a t))))) tr.
   Proof.
-    intros Hr N1 N2 N3 Hpe Hfe [[O1 O2 O3 O4 O5] K1 R1 W1].
+    intros Hr N1 N2 N3 Hpe Hfe Har Hmi [[O1 O2 O3 O4 O5] K1 R1 W1].
     destruct (O5 t r Hr) as (Hlt & Htid).
     set (g' := upd_rec g r (rs_tid 0)).
     assert (El : List.length (recs g') = List.length (recs g)) by (unfold g', upd_rec; cbn; apply upd_nth_length).
@@ -195,6 +210,9 @@ Section StepsB1.
       + cbn. intros r' Hr' [(ob & X)|[X|X]]; apply in_in_remove; auto; try congruence.
       + eapply JR_frame with (g := g) (a := a); eauto.
         all: try solve [intros r'; destruct (Ef r') as (_ & X); exact X].
-    - apply JW_setv_gen; auto. eapply JW_frame with (g := g) (a := a); eauto.
+    - apply JW_setv_gen; auto.
+      + cbn. intros r' H. split; auto. intros Hr'. apply in_in_remove; auto. intros ->. apply Har. exact H.
+      + cbn. split; auto. split; auto. intros r' H Hr'. apply in_in_remove; auto. intros ->. apply Hmi. exact H.
+      + eapply JW_frame with (g := g) (a := a); eauto.
   Qed.
 End StepsB1.
